@@ -316,6 +316,10 @@ func (st *State) applyContract(f *Frame, ins ssa.Instruction, c *Contract, calle
 	// `at <callee> assert ...` clauses of the function under proof: over its own locals, here
 	if top := st.frames[0]; f == top && top.contract != nil && len(top.contract.AtAsserts[name]) > 0 {
 		aenv := st.specEnv(f, nil, false)
+		// (arg0, arg1, ...: the values handed to the callee, the receiver first)
+		for i, av := range args {
+			aenv.vars[fmt.Sprintf("arg%d", i)] = av
+		}
 		for i, a := range top.contract.AtAsserts[name] {
 			st.oblige("pre", fmt.Sprintf("assert:at:%s@%s:%s", name, strings.TrimPrefix(ord, "call@"), clauseLabel(a, i)), st.evalBool(a.Expr, aenv, a), a.Src+"  [at the call of "+name+", "+st.pos(ins)+"]")
 		}
@@ -1135,8 +1139,8 @@ func (st *State) appendInPlace(freshRes Value, r string, s, t Value, tl, nl stri
 					st.assume(imp(app("bvslt", bvInt(k, 64), tl), eq(app("select", newArr, app("bvadd", at, bvInt(k, 64))), v)))
 				}
 				// (stated over the absolute index j, so that any read of the new array triggers it)
-				st.assume(fmt.Sprintf("(forall ((j (_ BitVec 64))) (! (=> (and (bvsle %s j) (bvslt j (bvadd %s %s))) (= (select %s j) (select %s (bvadd %s (bvsub j %s))))) :pattern ((select %s j))))",
-					at, at, tl, newArr, tArr, app("s_off", t.Term), at, newArr))
+				st.assume(fmt.Sprintf("(forall ((i (_ BitVec 64))) (! (=> (and (bvsle (_ bv0 64) i) (bvslt i %s)) (= (select %s (bvadd %s i)) (select %s (bvadd %s i)))) :pattern ((select %s (bvadd %s i)))))",
+					tl, newArr, at, tArr, app("s_off", t.Term), newArr, at))
 			}
 		}
 	}
